@@ -35,7 +35,7 @@ EXPLANATION = (
     "(reported). (R4) the 'full' test of add() must compare len(self._container) with self._bound_2 only; LIST must not size "
     "or index its container by bound_2 - bound_1. (R5) same query methods in all four classes and their return expressions. "
     "(R6) ARRAY.__getitem__ raises for None unless self._optional. "
-    "Not decided: agreement of sizes, indices and uniqueness with a reference model over operation histories — that quantifies "
+    "(R5/R6 are decided semantically: return expressions as linear forms over bound_1, bound_2, len(container); the unset-element guard executed for OPTIONAL x {unset, set-but-false, set}.) (R7) Type.get_type (BaseType.py) resolves a name in vars(self._scope), and a table of resolved types is keyed by every attribute of self that the look-up reads. Not decided: agreement of sizes, indices and uniqueness with a reference model over operation histories — that quantifies "
     "over run-time sequences; these rules show that each single operation is guarded the way EXPRESS requires.")
 
 PKG = "/repo/src/exp2python/python/stepcode"
